@@ -275,7 +275,7 @@ def main():
         notes="All checks are static: they re-extract MIR facts from /repo's current working tree (cached by content hash under /verif/.cache) and evaluate rule instances; nothing of /repo is executed. "
               "Every invocation first runs the engine controls (good/bad twins in /verif/controls through the same driver; failure = exit 2, no verdict). "
               "quick: workspace feature set. thorough: additionally re-decides C09/C10/C11/C12 on the cfg variant `web-lean` (no compress-*, no unicode: extractors read the payload directly, router uses regex-lite) "
-              "and runs the mutation self-test of the property's rules (mutants/<id>/*.diff applied to a scratch copy under mktemp, re-extracted, rules must fire; result is recorded in evidence.coverage.selftest and never changes the exit code).",
+              "re-evaluates the rules with all local/parameter/captured-variable names anonymised (rename robustness; recorded in evidence.coverage.rename_robustness), and runs the mutation self-test of the property's rules (mutants/<id>/*.diff applied to a scratch copy under mktemp, re-extracted, rules must fire; result is recorded in evidence.coverage.selftest and never changes the exit code).",
         not_applicable=na,
     )
     json.dump(m, open(os.path.join(VERIF, "MANIFEST.json"), "w"), indent=1)
